@@ -2306,7 +2306,12 @@ FROM (
                 return quote_name(v_name)
             return vp_group_sql_windowed(v_rule, quote_name(v_name), vp_over_clause)
 
-        name_override = "int_var" if op == tokens.COUNT else None
+        # count renames its result to int_var only when the operand has at most one
+        # measure (Operators.Analytic.validate); with several measures each one keeps
+        # its name and holds its own count.
+        operand_ds = self._get_dataset_structure(node.operand)
+        single_measure = operand_ds is None or len(operand_ds.get_measures_names()) <= 1
+        name_override = "int_var" if op == tokens.COUNT and single_measure else None
         result = self._apply_measures(
             node.operand, _analytic_expr, name_override, viral_expr_fn=_viral_expr
         )
